@@ -122,6 +122,9 @@ func (w *World) VerifyFunc(spec *FuncSpec) *FuncReport {
 		if beh.Name == "default" && len(beh.Ensures) == 0 && len(spec.Behaviors) > 1 && spec.Options["check-default"] == "" {
 			continue // nothing to prove for the bare default when named behaviours exist
 		}
+		if w.OnlyProp != "" && !behMentions(spec, beh, w.OnlyProp) {
+			continue
+		}
 		w.verifyBehavior(rep, fn, spec, beh)
 	}
 	return rep
@@ -207,7 +210,6 @@ func (w *World) verifyBehavior(rep *FuncReport, fn *ssa.Function, spec *FuncSpec
 			penv.vars[k] = v
 		}
 		bindResults(penv, fn, res)
-		penv.vars["alloc"] = st2.Alloc
 		for i, c := range beh.Ensures {
 			t, err := penv.evalBool(c.E)
 			label := c.Label
@@ -220,6 +222,16 @@ func (w *World) verifyBehavior(rep *FuncReport, fn *ssa.Function, spec *FuncSpec
 				continue
 			}
 			x.oblige(st2, "post", name, propsOf(c, beh, spec), t, c.Text, w.pos(fn.Pos()))
+			if kf := w.Known[name]; kf != nil && kf.Residual != "" {
+				// a listed known finding suppresses nothing beyond its carve-out: outside it the clause must still hold
+				if ge, err := ParseCExpr(kf.Residual); err != nil {
+					x.fail("known finding " + kf.ID + ": residual guard: " + err.Error())
+				} else if g, err := penv.evalBool(ge); err != nil {
+					x.fail("known finding " + kf.ID + ": residual guard: " + err.Error())
+				} else {
+					x.oblige(st2, "post", name+"~outside["+kf.ID+"]", propsOf(c, beh, spec), Implies(g, t), "("+kf.Residual+") ==> ("+c.Text+")", w.pos(fn.Pos()))
+				}
+			}
 		}
 		if len(rep.Vacuity) < 6 {
 			rep.Vacuity = append(rep.Vacuity, &Obligation{Name: fmt.Sprintf("%s.vacuity[return %d]", base, x.returns), Kind: "vacuity-path",
